@@ -5,7 +5,7 @@ from __future__ import annotations
 import re
 
 from ..report import Cx, Ob, describe, obligation
-from ..rules import API, CONV, LISTS, Prov, where
+from ..rules import _strip_views, API, CONV, LISTS, Prov, where
 from ..summ import describe_path
 from ..terms import callee_name, concat_parts, is_const, op, show, subterms
 
@@ -321,7 +321,7 @@ def d3(cx: Cx, ob: Ob) -> None:
     def classify(p, r, loops):
         if p == ("attr", r, "prefix"):
             return "canon"
-        if len(loops) == 2 and loops[1].b == ("attr", r, "prefix_synonyms") and p == loops[1].a:
+        if len(loops) == 2 and _strip_views(loops[1].b) == ("attr", r, "prefix_synonyms") and p == loops[1].a:
             return "syn"
         return None
 
@@ -331,7 +331,7 @@ def d3(cx: Cx, ob: Ob) -> None:
             continue
         seen_calls.add((ev.line, c))
         lp = ctx.loops[0] if ctx.loops else None
-        if lp is not None and lp.b == ("attr", conv, "records"):
+        if lp is not None and _strip_views(lp.b) == ("attr", conv, "records"):
             r = lp.a
             p = c[2][0] if c[2] else dict(c[3]).get("prefix")
             kind = classify(p, r, ctx.loops)
@@ -586,6 +586,7 @@ def d6(cx: Cx, ob: Ob) -> None:
                         ("ifexp", ("cmp", "is not", c, ("const", None)), sc, ("const", None)),
                         ("ifexp", ("cmp", "is", c, ("const", None)), ("const", None), sc),
                         ("ifexp", ("not", c), ("const", None), sc),
+                        ("ifexp", c, sc, c),  # a falsy pattern (None or '') is handed on as it is
                     )
                     if pv not in accepted:
                         helper = pv[1][1] if op(pv) == "call" and op(pv[1]) == "func" else None
